@@ -12,6 +12,7 @@
   SOURCE     Schema.fingerprint is assigned once, at freeze, from canonical_form_rabin_fingerprint() of the node
              graph; rabin_fingerprint() returns that field; the builder type has no cached state besides the nodes
              and the stored JSON
+  shared     the whole of c07.resolution_rules (name keys, namespace threading, parser tables, late binding)
 It does NOT decide text equality of the canonical form for every schema.
 """
 import re
